@@ -13,8 +13,12 @@ GHOST_DEFS
 #include "src/lib/compint.c"
 #include "src/lib/hash/hash.c"
 zckChunk *verif_uthash_find(zckChunk *head, const void *key, size_t len, int uncomp) {
+#ifdef VERIF_NATIVE
+    return NULL;
+#else
     _Bool nondet_bool(void);
     return nondet_bool() ? NULL : head;      /* assumed uthash contract: NULL or some element of the table */
+#endif
 }
 #include "src/lib/index/index_read.c"
 
